@@ -32,7 +32,8 @@ def is_filtered_mac(m):
 
 
 def etype_of(kind):
-    return {"udp": 0x0800, "arp": 0x0806, "lldp": LLDP_TYPE, "raw": 0x88b5}[kind]
+    # raw6: exactly the smallest Ethernet II type (0x0600; anything below is an 802.3 length)
+    return {"udp": 0x0800, "arp": 0x0806, "lldp": LLDP_TYPE, "raw": 0x88b5, "raw6": 0x0600}[kind]
 
 
 class Pipe:
@@ -130,14 +131,48 @@ class C11(Check):
         self.SoftwareSwitch, self.OFConnection, self.DpPacketOut, self.IOWorker = SoftwareSwitch, OFConnection, DpPacketOut, IOWorker
         self.pk = (ethernet, ipv4, udp, arp, EthAddr, IPAddr)
         self.pins = []
-        self.relearn, self.dropinport = self.read_repair_flags()
-        self.exactsig = self.read_exact_variant()
+        self.pin_data = []
         setter = self.resolve_setter("pox/openflow/libopenflow_01.py", "ofp_packet_out", "data")
         self.anchors = list(type(self).anchors) + ([("pox/openflow/libopenflow_01.py",) + setter] if setter else
                                                    [("pox/openflow/libopenflow_01.py", "ofp_packet_out.data.setter-not-found")])
-        core.openflow.addListenerByName("PacketIn", lambda e: self.pins.append(e.dpid))
+        core.openflow.addListenerByName("PacketIn", lambda e: (self.pins.append(e.dpid), self.pin_data.append(bytes(e.data))))
         self._dpid = 0
         self._fcache = {}
+        self.relearn = self.dropinport = self.exactsig = False
+        self.variant_notes = []
+        self.probe_variants()
+
+    def probe_variants(self):
+        """Which variant of the code is in the tree is found by PROBING the running system (HARDENING 8): three two- or three-frame histories on a
+        real switch + controller, read through the same observables as every case.  The source shapes are read as a cross-check only; a
+        difference is recorded in the evidence, never an abort.  The model takes the three answers as parameters and the whole
+        correspondence run validates them."""
+        rx, A, B = self.rx, self.A, self.B
+        one = lambda ops: {"transparent": False, "switches": [{"ports": 3, "bufs": 1}], "links": [], "ops": ops}
+        def last_flows(ops):
+            obs = self.safe_impl(one(ops))
+            try: return obs["steps"][-1]["arr"][0]["flows"]
+            except Exception: return None
+        # repair C11-K1: a source that shows up on another port has its cached entries deleted
+        fl = last_flows([rx(3, B, A), rx(1, A, B), rx(2, A, BCAST)])
+        probed_relearn = None if fl is None else not any(r[0] == 1 and r[1] == A for r in fl)
+        # ... and the same-port drop entry carries the ingress port
+        fl = last_flows([rx(1, B, BCAST), rx(1, A, B)])
+        drops = [r for r in (fl or []) if r[5] == 0]
+        probed_dip = None if not drops else drops[0][0] != 0
+        # repair D26: an ARP flow built by from_packet is ranked as exact
+        fl = last_flows([rx(2, B, A, kind="arp"), rx(1, A, B, kind="arp")])
+        arps = [r for r in (fl or []) if r[3] == 0x0806 and r[0] != 0]
+        probed_exact = None if not arps else bool(arps[0][10])
+        try: src_relearn, src_dip = self.read_repair_flags()
+        except Exception as e: src_relearn = src_dip = None; self.variant_notes.append("l2_learning.py not readable: %s" % type(e).__name__)
+        try: src_exact = self.read_exact_variant()
+        except Exception as e: src_exact = None; self.variant_notes.append("is_wildcarded shape unknown")
+        for name, probed, src in (("relearn", probed_relearn, src_relearn), ("dropinport", probed_dip, src_dip), ("exactsig", probed_exact, src_exact)):
+            val = probed if probed is not None else bool(src)
+            if probed is None: self.variant_notes.append("%s: probe inconclusive, source reading %s used" % (name, src))
+            elif src is not None and src != probed: self.variant_notes.append("%s: probed %s, source shape says %s" % (name, probed, src))
+            setattr(self, name, bool(val))
 
     @staticmethod
     def read_repair_flags():
@@ -186,7 +221,8 @@ class C11(Check):
 
     def extra_evidence(self):
         return {"l2_learning_variant": {"relearn_on_move": self.relearn, "drop_entry_has_in_port": self.dropinport},
-                "flow_table_variant": {"prerequisite_less_wildcards_rank_exact": self.exactsig}}
+                "flow_table_variant": {"prerequisite_less_wildcards_rank_exact": self.exactsig},
+                "variant_detection": "probed on the running system; source shapes as cross-check", "variant_notes": self.variant_notes}
 
     def frame(self, src, dst, kind, key, pay):
         """real frame bytes; `key` goes where ofp_match.from_packet looks (UDP source port / ARP target address), `pay` where it does not"""
@@ -199,7 +235,11 @@ class C11(Check):
             e.payload = ipv4(srcip=IPAddr("10.0.0.1"), dstip=IPAddr("10.0.0.2"), protocol=17)
             e.payload.payload = udp(srcport=key, dstport=9)
             # pay >= 100: a frame longer than miss_send_len (128), so the packet-in is truncated and only the buffer has it all
-            e.payload.payload.payload = (b"p" + bytes([pay & 0xff]) * (1 + pay % 5)) if pay < 100 else bytes([pay & 0xff]) * 300
+            # pay 200..: frame lengths around miss_send_len exactly (pay 202 -> 128 bytes, 203 -> 129)
+            if pay < 100: body = b"p" + bytes([pay & 0xff]) * (1 + pay % 5)
+            elif pay < 200: body = bytes([pay & 0xff]) * 300
+            else: body = bytes([pay & 0xff]) * (pay - 200 + 84)
+            e.payload.payload.payload = body
         elif kind == "arp":
             e.payload = arp(opcode=1, hwsrc=EthAddr(mac_bytes(src)), hwdst=EthAddr(b"\0" * 5 + bytes([pay & 0xff])),
                             protosrc=IPAddr("10.0.0.1"), protodst=IPAddr("10.0.%d.%d" % (key >> 8, key & 0xff)))
@@ -210,17 +250,25 @@ class C11(Check):
         return fb
 
     class Node:
-        def __init__(self, chk, idx, nports, bufs):
+        def __init__(self, chk, idx, nports, bufs, base=0):
             chk._dpid += 1
             self.idx, self.dpid = idx, chk._dpid
+            self.nports, self.base = nports, int(str(base))          # a port number built at run time, not a literal (HARDENING 3)
             self.pipe = Pipe()
             self.w = chk.IOWorker(); self.w.socket = SwSock()
-            self.sw = chk.SoftwareSwitch(dpid=self.dpid, ports=nports, max_buffers=bufs)
+            self.sw = chk.SoftwareSwitch(dpid=self.dpid, ports=0, max_buffers=bufs)
+            for i in range(1, nports + 1):                           # logical port i is OpenFlow port base + i
+                self.sw.add_port(self.sw.generate_port(self.base + i, name="p%d" % i))
             self.ofc = chk.OFConnection(self.w); self.sw.set_connection(self.ofc)
             self.out = []
-            self.sw.addListener(chk.DpPacketOut, lambda e: self.out.append((e.port.port_no, e.packet.pack())))
+            self.sw.addListener(chk.DpPacketOut, lambda e: self.out.append((self.logical(e.port.port_no), e.packet.pack())))
             self.con = chk.of_01.Connection(CtlSock(self.pipe))
             self.pump()
+        def logical(self, real):
+            """logical number of an OpenFlow port number of this switch; numbers that are not its ports are kept apart (negative)"""
+            if real is None: return 0
+            i = real - self.base
+            return i if 1 <= i <= self.nports else -(real + 1)
         def pump(self):
             moved, n = True, 0
             while moved:
@@ -241,8 +289,8 @@ class C11(Check):
             key = 0
             if m.dl_type == 0x0800 and m.tp_src is not None: key = m.tp_src
             elif m.dl_type == 0x0806 and m.nw_dst is not None: key = m.nw_dst.toUnsigned() & 0xffff
-            rows.append([m.in_port or 0, int.from_bytes(m.dl_src.raw, "big"), int.from_bytes(m.dl_dst.raw, "big"), m.dl_type, key,
-                         outs[0] if len(outs) == 1 else (0 if not outs else -1),
+            rows.append([node.logical(m.in_port), int.from_bytes(m.dl_src.raw, "big"), int.from_bytes(m.dl_dst.raw, "big"), m.dl_type, key,
+                         node.logical(outs[0]) if len(outs) == 1 else (0 if not outs else -1),
                          e.idle_timeout, e.hard_timeout, int(round(e.created * 1000)), int(round(e.last_touched * 1000)),
                          1 if e.effective_priority > 0xffff else 0])
         return rows
@@ -251,7 +299,23 @@ class C11(Check):
         clock = poxenv.clock
         clock.now = T0_MS / 1000.0
         self.core.l2_learning.transparent = bool(case["transparent"])
-        nodes = [self.Node(self, i, s["ports"], s["bufs"]) for i, s in enumerate(case["switches"])]
+        nodes = [self.Node(self, i, s["ports"], s["bufs"], s.get("base", 0)) for i, s in enumerate(case["switches"])]
+        pd = case.get("pd", True)          # rx_packet(packet, port, packet_data=bytes) or rx_packet(packet, port): both are its calling convention
+        def deliver(n, fb, port):
+            """one frame reaches a port of the real switch; an exception that escapes the code under test is an observable, not a harness error"""
+            real = n.base + port
+            try:
+                if pd: n.sw.rx_packet(self.pk[0](fb), real, packet_data=fb)
+                else: n.sw.rx_packet(self.pk[0](fb), real)
+                return None
+            except Exception as e:
+                return type(e).__name__
+        def settle(n):
+            try:
+                n.pump(); return None
+            except Exception as e:
+                n.pipe.to_switch = b""; n.pipe.to_ctl = b""
+                return type(e).__name__
         try:
             for n in nodes:
                 if n.dpid not in self.core.openflow.connections: raise RuntimeError("handshake did not complete")
@@ -265,9 +329,28 @@ class C11(Check):
                     steps.append({"k": "adv"})
                 elif op["op"] == "sweep":
                     n = nodes[op["sw"]]
-                    n.out.clear(); del self.pins[:]
+                    n.out.clear(); del self.pins[:]; del self.pin_data[:]
                     n.sw.table.remove_expired_entries(clock.now); n.pump()
                     steps.append({"k": "sweep", "flows": self.table_summary(n), "noise": len(n.out) + len(self.pins)})
+                elif op["op"] == "burst":
+                    # several frames reach ONE switch before the control channel moves: the packet-ins share one read at the controller and the
+                    # answers one read at the switch (HARDENING 5).  Frames of a burst have pairwise different bytes, so deliveries and
+                    # packet-ins are attributed by content.  No links in burst cases.
+                    n = nodes[op["sw"]]
+                    n.out.clear(); del self.pins[:]; del self.pin_data[:]
+                    fbs = [self.frame(f["src"], f["dst"], f["kind"], f["key"], f["pay"]) for f in op["frames"]]
+                    if len(set(fbs)) != len(fbs): raise RuntimeError("burst frames must differ")
+                    excs = [deliver(n, fb, f["port"]) for f, fb in zip(op["frames"], fbs)]
+                    exc2 = settle(n)
+                    flows, bufs = self.table_summary(n), [0 if b is None else 1 for b in n.sw._packet_buffer]
+                    arrivals = []
+                    for f, fb, ex in zip(op["frames"], fbs, excs):
+                        a = {"sw": op["sw"], "port": f["port"], "pin": sum(1 for d in self.pin_data if d == fb), "pin_ok": 1 if all(d == n.dpid for d in self.pins) else 0,
+                             "out": [[p, 1] for p, b in n.out if b == fb], "flows": flows, "bufs": bufs}
+                        if ex or exc2: a["exc"] = ex or exc2
+                        arrivals.append(a)
+                    stray = [p for p, b in n.out if b not in fbs]
+                    steps.append({"k": "burst", "arr": arrivals, "stray": len(stray) + sum(1 for d in self.pin_data if d not in fbs)})
                 else:
                     fb = self.frame(op["src"], op["dst"], op["kind"], op["key"], op["pay"])
                     queue = [(op["sw"], op["port"])]
@@ -276,12 +359,13 @@ class C11(Check):
                         if len(arrivals) > 64: raise RuntimeError("frame circulates")
                         si, port = queue.pop(0)
                         n = nodes[si]
-                        n.out.clear(); del self.pins[:]
-                        n.sw.rx_packet(self.pk[0](fb), port, packet_data=fb); n.pump()
+                        n.out.clear(); del self.pins[:]; del self.pin_data[:]
+                        ex1 = deliver(n, fb, port); ex2 = settle(n); ex = ex1 or ex2
                         outs = [[p, 1 if b == fb else 0] for p, b in n.out]
                         arrivals.append({"sw": si, "port": port, "pin": len(self.pins), "pin_ok": 1 if all(d == n.dpid for d in self.pins) else 0,
                                          "out": outs, "flows": self.table_summary(n),
                                          "bufs": [0 if b is None else 1 for b in n.sw._packet_buffer]})
+                        if ex: arrivals[-1]["exc"] = ex
                         for p, _ in n.out:
                             if (si, p) in link: queue.append(link[(si, p)])
                     steps.append({"k": "rx", "arr": arrivals})
@@ -339,12 +423,51 @@ class C11(Check):
                "ops": [rx(1, A, B, sw=0), rx(2, B, A, sw=2), rx(1, A, B, sw=0), rx(1, A, B, sw=0), rx(3, Cc, BCAST, sw=2), rx(2, A, B, sw=2),
                        {"op": "adv", "ms": 10125}, {"op": "sweep", "sw": 1}, rx(2, B, A, sw=2), rx(2, B, STP, sw=2)]}
         cases.append(net)
+        # ---- HARDENING.md families
+        import copy
+        base_seeds = list(cases)
+        # (3) OpenFlow port numbers that are not small literals: across the small-int cache (256/257), the signed 16-bit edge, just below OFPP_MAX
+        for base in (254, 32765, 0xfef0):
+            for c in base_seeds[:8] + [net]:
+                d = copy.deepcopy(c)
+                for w in d["switches"]: w["base"] = base
+                cases.append(d)
+        # (4) the other calling convention of rx_packet (no packet_data)
+        for c in base_seeds[2:6]:
+            d = copy.deepcopy(c); d["pd"] = False; cases.append(d)
+        # (1) two switches that share nothing: same addresses on different ports, interleaved; then a third that connects later in the history's eyes
+        two = lambda ops, b0=1, b1=1: {"transparent": False, "switches": [{"ports": 3, "bufs": b0}, {"ports": 3, "bufs": b1}], "links": [], "ops": ops}
+        cases.append(two([rx(1, A, B, sw=0), rx(1, B, A, sw=1), rx(2, B, A, sw=0), rx(2, A, B, sw=1), rx(1, A, B, sw=0), rx(1, B, A, sw=1),
+                          rx(3, A, B, sw=1), rx(3, B, A, sw=0)]))
+        cases.append(two([rx(1, A, BCAST, sw=0), rx(1, A, A, sw=1), rx(2, B, A, sw=1), rx(2, B, A, sw=0), rx(3, Cc, A, sw=1), rx(3, Cc, A, sw=0)], 0, 2))
+        cases.append(two([rx(2, B, A, sw=0), rx(1, A, B, sw=0), rx(2, B, A, sw=1), rx(1, A, B, sw=1), {"op": "adv", "ms": 10125}, {"op": "sweep", "sw": 0},
+                          rx(1, A, B, sw=0), rx(1, A, B, sw=1)]))
+        # (3) rare values where a truth test or `is` could stand for a comparison: transport port 0 / 256 / 257 / 65535, the all-zero MAC, a group
+        #     address as SOURCE, ethertype exactly 0x0600, frames of exactly miss_send_len and one more, a full pool of one
+        Z, G = 0x000000000000, 0x010000000001
+        for bufs in (0, 1):
+            cases.append(one([rx(2, B, A, key=0), rx(1, A, B, key=0), rx(1, A, B, key=256), rx(1, A, B, key=0), rx(1, A, B, key=65535), rx(1, A, B, key=257),
+                              rx(1, A, B, key=256), rx(2, B, A, kind="arp", key=0), rx(1, A, B, kind="arp", key=0), rx(1, A, B, kind="arp", key=256),
+                              rx(1, A, B, kind="arp", key=0)], bufs=bufs))
+            cases.append(one([rx(1, Z, B), rx(2, B, Z), rx(1, Z, B), rx(3, A, Z), rx(2, G, A), rx(1, A, G), rx(3, A, B, kind="raw6", key=0), rx(2, B, A, kind="raw6", key=0),
+                              rx(3, A, B, kind="raw6", key=0), rx(1, A, B, pay=202), rx(2, B, A, pay=203), rx(1, A, B, pay=203), rx(1, A, BCAST, pay=202),
+                              rx(1, A, BCAST, pay=203)], bufs=bufs))
+        # (5) bursts: several frames reach the switch before the control channel moves — several packet-ins in one read at the controller, several
+        #     answers in one read at the switch, more misses than buffers; judged by the oracle (ideal bridge), frame by frame
+        f = lambda port, src, dst, pay, kind="udp", key=1: {"port": port, "src": src, "dst": dst, "kind": kind, "key": key, "pay": pay}
+        for bufs in (0, 1, 2, 4):
+            cases.append(one([{"op": "burst", "sw": 0, "frames": [f(1, A, B, 1), f(2, B, A, 2), f(3, Cc, A, 3)]},
+                              {"op": "burst", "sw": 0, "frames": [f(1, A, B, 4), f(1, A, Cc, 5), f(2, B, BCAST, 6), f(3, Cc, STP, 7), f(2, B, Cc, 8)]},
+                              rx(1, A, B), {"op": "burst", "sw": 0, "frames": [f(1, A, B, 9), f(1, A, B, 10, key=2), f(2, B, A, 11), f(1, A, A, 12)]},
+                              {"op": "adv", "ms": 10125}, {"op": "sweep", "sw": 0},
+                              {"op": "burst", "sw": 0, "frames": [f(3, B, A, 13), f(1, A, B, 14), f(2, Cc, B, 15), f(2, Cc, A, 16, kind="arp")]}], bufs=bufs))
         return cases + self._exhaustive("quick")
 
     def _exhaustive(self, tier):
         """ALL sequences of length 4 over the alphabet (their prefixes are the shorter ones), pools of 0 and 1; the thorough tier adds three
         letters and a pool of 2 and yields only what the quick corpus did not already contain"""
-        one = lambda ops, bufs: {"transparent": False, "switches": [{"ports": 3, "bufs": bufs}], "links": [], "ops": ops}
+        # the pool-of-1 half runs on OpenFlow ports 255, 256, 257 (equal port numbers are then not always the same int object)
+        one = lambda ops, bufs: {"transparent": False, "switches": [{"ports": 3, "bufs": bufs, "base": 254 if bufs == 1 else 0}], "links": [], "ops": ops}
         alpha = self.alphabet(tier)
         nq = len(self.alphabet("quick"))
         out = []
@@ -395,14 +518,20 @@ class C11(Check):
     def random_case(self, rng, maxlen=200):
         if rng.random() < 0.2: return self.random_keepalive(rng)
         nsw = rng.choice([1, 1, 1, 2, 3])
-        sws = [{"ports": rng.randint(2, 5), "bufs": rng.randint(0, 4)} for _ in range(nsw)]
+        sws = [{"ports": rng.randint(2, 5), "bufs": rng.randint(0, 4), "base": rng.choice([0, 0, 254, 300, 32765, 0xfef0])} for _ in range(nsw)]
         links, used = [], set()
+        unlinked = rng.random() < 0.25                # switches that share nothing but the controller component
         for i in range(1, nsw):                       # a tree: switch i hangs off an earlier one
+            if unlinked: break
             j = rng.randrange(i)
             pj = rng.choice([p for p in range(1, sws[j]["ports"] + 1) if (j, p) not in used] or [0])
             if pj == 0 or (i, 1) in used: continue
             used.add((j, pj)); used.add((i, 1)); links.append([j, pj, i, 1])
         hosts = [0x0a, 0x0b, 0x0c, 0x0d, 0x0e][:rng.randint(2, 5)]
+        if rng.random() < 0.15: hosts[0] = 0                       # the all-zero address is an address
+        if rng.random() < 0.1: hosts[-1] = 0x010000000001           # a group address used as a source
+        rare = rng.random() < 0.3
+        bursty = nsw == 1 and rng.random() < 0.3
         free = [(i, p) for i in range(nsw) for p in range(1, sws[i]["ports"] + 1) if (i, p) not in used] or [(0, 1)]
         if rng.random() < 0.5: free = free[:3]         # few attachment points: hosts share ports and come back to old ones
         loc = {h: rng.choice(free) for h in hosts}
@@ -419,12 +548,23 @@ class C11(Check):
                     loc[rng.choice(hosts)] = rng.choice(free)          # a host moves
                 src = rng.choice(hosts)
                 dst = rng.choice(hosts + hosts + [BCAST, STP, LLDP_MC, PAUSE, FILTER_LAST, IP_MC, NOT_FILTERED_MC, 0xfe])
-                kind = rng.choice(["udp", "udp", "udp", "udp", "arp", "arp", "lldp", "raw"])
+                kind = rng.choice(["udp", "udp", "udp", "udp", "arp", "arp", "lldp", "raw"] + (["raw6"] if rare else []))
                 key = rng.randint(1, nkeys) if kind in ("udp", "arp") else 0
+                if rare and kind in ("udp", "arp") and rng.random() < 0.5: key = rng.choice([0, 0, 256, 257, 65535])
                 sw, port = loc[src]
                 if rng.random() < 0.02: port = rng.choice([0, sws[sw]["ports"] + 1])
-                ops.append(self.rx(port, src, dst, kind, key, rng.choice([0, 0, 1, 2, 100, 101]), sw))
-        return {"transparent": rng.random() < 0.25, "switches": sws, "links": links, "ops": ops}
+                pay = rng.choice([0, 0, 1, 2, 100, 101] + ([202, 203] if rare else []))
+                if bursty and rng.random() < 0.25:
+                    # a burst: up to 6 frames, different bytes (pay), every source on one port only (a host is in one place at a time)
+                    frames, where = [], {}
+                    for k in range(rng.randint(2, 6)):
+                        s2 = rng.choice(hosts); where.setdefault(s2, loc[s2][1])
+                        d2 = rng.choice(hosts + [BCAST, STP, 0xfe])
+                        frames.append({"port": where[s2], "src": s2, "dst": d2, "kind": rng.choice(["udp", "udp", "arp"]), "key": rng.randint(1, nkeys), "pay": 10 + len(ops) % 60 + k * 0 + k})
+                    if len({(f["src"], f["dst"], f["kind"], f["key"], f["pay"]) for f in frames}) == len(frames):
+                        ops.append({"op": "burst", "sw": 0, "frames": frames}); continue
+                ops.append(self.rx(port, src, dst, kind, key, pay, sw))
+        return {"transparent": rng.random() < 0.25, "pd": rng.random() < 0.7, "switches": sws, "links": links, "ops": ops}
 
     def generate(self, rng, tier):
         if tier == "thorough":
@@ -439,6 +579,7 @@ class C11(Check):
 
     # ------------------------------------------------------------------ model side
     def model_request(self, case):
+        if any(op["op"] == "burst" for op in case["ops"]): return None      # bursts are judged by the oracle only (the model answers packet-ins one at a time)
         ops = []
         for op in case["ops"]:
             if op["op"] == "rx":
@@ -446,7 +587,7 @@ class C11(Check):
                             "key": op["key"], "l4": 1 if op["kind"] == "udp" else 0, "pay": op["pay"]})
             else:
                 ops.append(op)
-        return {"transparent": bool(case["transparent"]), "relearn": self.relearn, "dropinport": self.dropinport, "exactsig": self.exactsig, "t0": T0_MS, "switches": case["switches"], "links": case.get("links", []), "ops": ops}
+        return {"transparent": bool(case["transparent"]), "relearn": self.relearn, "dropinport": self.dropinport, "exactsig": self.exactsig, "t0": T0_MS, "switches": [{"ports": w["ports"], "bufs": w["bufs"]} for w in case["switches"]], "links": case.get("links", []), "ops": ops}
 
     def model_obs(self, case, resp):
         return resp
@@ -455,8 +596,12 @@ class C11(Check):
         steps = []
         for st in obs["steps"]:
             if st["k"] == "rx":
-                steps.append({"k": "rx", "arr": [{"sw": a["sw"], "port": a["port"], "pin": a["pin"], "stuck": 0, "out": a["out"], "flows": a["flows"],
-                                                 "bufs": a["bufs"]} for a in st["arr"]]})
+                arr = []
+                for a in st["arr"]:
+                    d = {"sw": a["sw"], "port": a["port"], "pin": a["pin"], "stuck": 0, "out": a["out"], "flows": a["flows"], "bufs": a["bufs"]}
+                    if a.get("exc"): d["exc"] = a["exc"]             # an exception escaping the real loop has no model counterpart
+                    arr.append(d)
+                steps.append({"k": "rx", "arr": arr})
             elif st["k"] == "sweep":
                 d = {"k": "sweep", "flows": st["flows"]}
                 if st["noise"]: d["noise"] = st["noise"]        # a sweep that emits frames or packet-ins has no model counterpart
@@ -488,57 +633,62 @@ class C11(Check):
                 sp = spec[op["sw"]]
                 for k in [k for k, (cr, to, idle, hard) in sp.items() if now - to > idle or now - cr > hard]: del sp[k]
                 continue
-            if op["op"] != "rx": continue
-            src, dst, et = op["src"], op["dst"], etype_of(op["kind"])
-            hdr = (src, dst, op["kind"], op["key"])
-            hops = [(a["sw"], a["port"]) for a in st["arr"]]
-            if len(set(hops)) != len(hops):                    # the harness builds loop-free topologies only
-                return "one frame reached the same switch port twice: %s" % sorted(h for h in set(hops) if hops.count(h) > 1), "net-dup"
-            for a in st["arr"]:
-                si, port = a["sw"], a["port"]
-                nports = case["switches"][si]["ports"]
-                if not (1 <= port <= nports):
-                    if a["out"] or a["pin"]: return "frame on a nonexistent port was processed", "bad-port"
-                    continue
-                ports = [p for p, _ in a["out"]]
-                where = "sw%d port %d %012x->%012x" % (si, port, src, dst)
-                cached = [k for k in ((port,) + hdr, (0,) + hdr) if k in spec[si]]
-                if a["pin"]:
-                    for k in cached: del spec[si][k]                 # the switch had no such entry (any more)
-                else:
-                    for k in cached: spec[si][k][1] = now
-                if not a["pin_ok"]: return "packet-in raised for another switch (%s)" % where, "pin-dpid"
-                if any(not ok for _, ok in a["out"]): return "emitted bytes differ from the frame that arrived (%s)" % where, "bytes"
-                if port in ports: return "frame sent back out its ingress port (%s)" % where, "echo"
-                if len(set(ports)) != len(ports): return "frame delivered twice to a port (%s): %s" % (where, ports), "dup"
-                if any(not (1 <= p <= nports) for p in ports): return "delivery to a nonexistent port", "bad-out-port"
-                if any(a["bufs"]): return "buffer still occupied at quiescence (%s): %s" % (where, a["bufs"]), "buffer-leak"
-                others = [p for p in range(1, nports + 1) if p != port]
-                known = seen[si].get(dst, [])
-                if src == dst: known = [port] + known          # the frame itself is the latest sighting of its own destination
-                filt = (not case["transparent"]) and (is_filtered_mac(dst) or et == LLDP_TYPE)
-                if filt:
-                    if ports: return "bridge-filtered / LLDP frame forwarded (%s) to %s" % (where, ports), "filtered-forwarded"
-                elif is_mc(dst) or not known:
-                    if sorted(ports) != others:
-                        return "%s destination not flooded to all other ports (%s): %s" % ("multicast" if is_mc(dst) else "unknown", where, ports), \
-                               ("mc-not-flooded" if is_mc(dst) else "unknown-not-flooded")
-                else:
-                    if any(p not in known for p in ports):
-                        return "delivered to a port where the destination was never seen (%s): %s, seen %s" % (where, ports, known), "known-not-subset"
-                    want = [] if known[0] == port else [known[0]]
-                    if a["pin"]:                               # packet-in <=> no installed flow matched the frame
-                        if ports != want:
-                            tag = "fresh:dst-last-seen-through-cached-flow" if via_flow[si].get(dst) else "fresh:other"
-                            return "no cached flow, yet not delivered to exactly the most recent port (%s): %s, seen %s" % (where, ports, known), tag
-                        if ports: spec[si][(port,) + hdr] = [now, now, 10000, 30000]
-                        else: spec[si][(0,) + hdr] = [now, now, 10000, 10000]
-                    elif not cached and ports != want:
-                        return ("forwarded by a cached flow that its idle 10 s / hard 30 s timeouts and a sweep should have removed, not to the most "
-                                "recent port (%s): %s, seen %s" % (where, ports, known)), "fresh:cached-flow-outlived-timeout"
-                seen[si].setdefault(src, [])
-                seen[si][src] = [port] + seen[si][src]
-                via_flow[si][src] = (a["pin"] == 0)
+            if op["op"] == "rx": groups = [(op, st["arr"])]
+            elif op["op"] == "burst":
+                if st.get("stray"): return "a burst produced deliveries or packet-ins of frames that were not sent", "burst-stray"
+                groups = [(f, [a]) for f, a in zip(op["frames"], st["arr"])]
+            else: continue
+            for fop, arrs in groups:
+                src, dst, et = fop["src"], fop["dst"], etype_of(fop["kind"])
+                hdr = (src, dst, fop["kind"], fop["key"])
+                hops = [(a["sw"], a["port"]) for a in arrs]
+                if len(set(hops)) != len(hops):                    # the harness builds loop-free topologies only
+                    return "one frame reached the same switch port twice: %s" % sorted(h for h in set(hops) if hops.count(h) > 1), "net-dup"
+                for a in arrs:
+                    si, port = a["sw"], a["port"]
+                    nports = case["switches"][si]["ports"]
+                    if not (1 <= port <= nports):
+                        if a["out"] or a["pin"]: return "frame on a nonexistent port was processed", "bad-port"
+                        continue
+                    ports = [p for p, _ in a["out"]]
+                    where = "sw%d port %d %012x->%012x" % (si, port, src, dst)
+                    cached = [k for k in ((port,) + hdr, (0,) + hdr) if k in spec[si]]
+                    if a["pin"]:
+                        for k in cached: del spec[si][k]                 # the switch had no such entry (any more)
+                    else:
+                        for k in cached: spec[si][k][1] = now
+                    if not a["pin_ok"]: return "packet-in raised for another switch (%s)" % where, "pin-dpid"
+                    if any(not ok for _, ok in a["out"]): return "emitted bytes differ from the frame that arrived (%s)" % where, "bytes"
+                    if port in ports: return "frame sent back out its ingress port (%s)" % where, "echo"
+                    if len(set(ports)) != len(ports): return "frame delivered twice to a port (%s): %s" % (where, ports), "dup"
+                    if any(not (1 <= p <= nports) for p in ports): return "delivery to a nonexistent port", "bad-out-port"
+                    if any(a["bufs"]): return "buffer still occupied at quiescence (%s): %s" % (where, a["bufs"]), "buffer-leak"
+                    others = [p for p in range(1, nports + 1) if p != port]
+                    known = seen[si].get(dst, [])
+                    if src == dst: known = [port] + known          # the frame itself is the latest sighting of its own destination
+                    filt = (not case["transparent"]) and (is_filtered_mac(dst) or et == LLDP_TYPE)
+                    if filt:
+                        if ports: return "bridge-filtered / LLDP frame forwarded (%s) to %s" % (where, ports), "filtered-forwarded"
+                    elif is_mc(dst) or not known:
+                        if sorted(ports) != others:
+                            return "%s destination not flooded to all other ports (%s): %s" % ("multicast" if is_mc(dst) else "unknown", where, ports), \
+                                   ("mc-not-flooded" if is_mc(dst) else "unknown-not-flooded")
+                    else:
+                        if any(p not in known for p in ports):
+                            return "delivered to a port where the destination was never seen (%s): %s, seen %s" % (where, ports, known), "known-not-subset"
+                        want = [] if known[0] == port else [known[0]]
+                        if a["pin"]:                               # packet-in <=> no installed flow matched the frame
+                            if ports != want:
+                                tag = "fresh:dst-last-seen-through-cached-flow" if via_flow[si].get(dst) else "fresh:other"
+                                return "no cached flow, yet not delivered to exactly the most recent port (%s): %s, seen %s" % (where, ports, known), tag
+                            if ports: spec[si][(port,) + hdr] = [now, now, 10000, 30000]
+                            else: spec[si][(0,) + hdr] = [now, now, 10000, 10000]
+                        elif not cached and ports != want:
+                            return ("forwarded by a cached flow that its idle 10 s / hard 30 s timeouts and a sweep should have removed, not to the most "
+                                    "recent port (%s): %s, seen %s" % (where, ports, known)), "fresh:cached-flow-outlived-timeout"
+                    seen[si].setdefault(src, [])
+                    seen[si][src] = [port] + seen[si][src]
+                    via_flow[si][src] = (a["pin"] == 0)
         return None, None
 
     def finding_key(self, case, obs, failure):
